@@ -13,6 +13,7 @@ import (
 	"crypto/sha256"
 	"fmt"
 	"go/ast"
+	"go/build"
 	"go/constant"
 	"go/importer"
 	"go/parser"
@@ -201,7 +202,16 @@ func (g *gen) rawRead(e ast.Expr) string {
 		case token.OR:
 			return fmt.Sprintf("(Nat.lor %s %s)", a, b)
 		case token.SHL:
-			return fmt.Sprintf("(Nat.mod (Nat.shiftLeft %s %s) 256)", a, b)
+			// the width of a shift is that of its (typed) result: uint8 wraps, 64-bit integers are assumed not to overflow
+			if bt, ok := g.typeOf(x).Underlying().(*types.Basic); ok {
+				if bt.Kind() == types.Uint8 {
+					return fmt.Sprintf("(Nat.mod (Nat.shiftLeft %s %s) 256)", a, b)
+				}
+				if wideInt(bt) {
+					return fmt.Sprintf("(Nat.shiftLeft %s %s)", a, b)
+				}
+			}
+			g.die(e, "shift of type %s", g.typeOf(x))
 		case token.SHR:
 			return fmt.Sprintf("(Nat.shiftRight %s %s)", a, b)
 		}
@@ -252,7 +262,7 @@ func isNatLike(t types.Type) bool { return leanType(t) == "Nat" }
 func (g *gen) typeOf(e ast.Expr) types.Type { return g.info.Types[e].Type }
 func (g *gen) isFloat(e ast.Expr) bool {
 	b, ok := g.typeOf(e).Underlying().(*types.Basic)
-	return ok && b.Info()&types.IsFloat != 0
+	return ok && (b.Kind() == types.Float64 || b.Kind() == types.UntypedFloat)
 }
 func (g *gen) isUint8(e ast.Expr) bool {
 	b, ok := g.typeOf(e).Underlying().(*types.Basic)
@@ -859,7 +869,24 @@ func (g *gen) stmts(ss []ast.Stmt, en *env, c ctx, ind string) string {
 				return g.bind(name, g.typeOf(x.Rhs[0]), rhs, next(), ind)
 			}
 			if x.Tok == token.DEFINE {
-				// a, b, c := e1, e2, e3 with fresh names: sequential binding is equivalent
+				// a, b, c := e1, e2, e3 with fresh names: sequential binding is equivalent — provided every name is NEW here
+				// (a partial redeclaration assigns to the existing variable) and no right-hand side mentions one of them
+				lhsNames := map[string]bool{}
+				for _, l := range x.Lhs {
+					id, ok := l.(*ast.Ident)
+					if !ok || (id.Name != "_" && g.info.Defs[id] == nil) {
+						g.die(s, "multiple := that re-uses an existing variable")
+					}
+					lhsNames[id.Name] = true
+				}
+				for _, r := range x.Rhs {
+					ast.Inspect(r, func(n ast.Node) bool {
+						if id, ok := n.(*ast.Ident); ok && lhsNames[id.Name] {
+							g.die(s, "multiple := whose right-hand side mentions a variable it declares")
+						}
+						return true
+					})
+				}
 				out := next()
 				for i := len(x.Lhs) - 1; i >= 0; i-- {
 					out = g.bind(x.Lhs[i].(*ast.Ident).Name, g.typeOf(x.Rhs[i]), g.expr(x.Rhs[i], en), out, ind)
@@ -1123,12 +1150,208 @@ func panicOf(t types.Type) string {
 	return "Go.panicStr"
 }
 
+// precheck: constructs whose Go meaning the syntax-directed translation below would get wrong are refused up front
+// (found by the machinery audit of round 4): a name declared twice in nested scopes (the translation has one flat name
+// space per function), pointers other than the in-out parameter idiom, `break` that would leave a switch, `make` with a
+// non-zero length or more than one pre-sized buffer, float32/complex arithmetic.
+func (g *gen) precheck(name string, fd *ast.FuncDecl, tableMode bool) {
+	// (a) shadowing
+	byName := map[string][]types.Object{}
+	ast.Inspect(fd, func(n ast.Node) bool {
+		if id, ok := n.(*ast.Ident); ok && id.Name != "_" {
+			if o := g.info.Defs[id]; o != nil {
+				if _, isVar := o.(*types.Var); isVar {
+					byName[id.Name] = append(byName[id.Name], o)
+				}
+			}
+		}
+		return true
+	})
+	encloses := func(a, b *types.Scope) bool {
+		for s := b; s != nil; s = s.Parent() {
+			if s == a {
+				return true
+			}
+		}
+		return false
+	}
+	for nm, objs := range byName {
+		for i := range objs {
+			for j := range objs {
+				if i != j && objs[i].Parent() != nil && objs[j].Parent() != nil && objs[i].Parent() != objs[j].Parent() && encloses(objs[i].Parent(), objs[j].Parent()) {
+					g.die(fd, "%s: the name %q is declared again in a nested scope (shadowing) — not modelled", name, nm)
+				}
+			}
+		}
+	}
+	params := map[types.Object]bool{}
+	if fd.Type.Params != nil {
+		for _, f := range fd.Type.Params.List {
+			for _, n := range f.Names {
+				params[g.info.Defs[n]] = true
+			}
+		}
+	}
+	if fd.Recv != nil {
+		for _, n := range fd.Recv.List[0].Names {
+			params[g.info.Defs[n]] = true
+		}
+	}
+	// parents, for "is a direct call argument"
+	parent := map[ast.Node]ast.Node{}
+	var stack []ast.Node
+	ast.Inspect(fd, func(n ast.Node) bool {
+		if n == nil {
+			stack = stack[:len(stack)-1]
+			return true
+		}
+		if len(stack) > 0 {
+			parent[n] = stack[len(stack)-1]
+		}
+		stack = append(stack, n)
+		return true
+	})
+	nMake3, nMake3Top := 0, 0
+	for _, st := range fd.Body.List {
+		if as, ok := st.(*ast.AssignStmt); ok && len(as.Rhs) == 1 {
+			if c, ok := as.Rhs[0].(*ast.CallExpr); ok && len(c.Args) == 3 {
+				if id, ok := c.Fun.(*ast.Ident); ok && id.Name == "make" {
+					nMake3Top++
+				}
+			}
+		}
+	}
+	ast.Inspect(fd.Body, func(n ast.Node) bool {
+		switch x := n.(type) {
+		case ast.Expr:
+			if tv, ok := g.info.Types[x]; ok && tv.Type != nil {
+				if bt, ok := tv.Type.Underlying().(*types.Basic); ok {
+					switch bt.Kind() {
+					case types.Float32, types.Complex64, types.Complex128, types.UntypedComplex:
+						g.die(x, "%s arithmetic is not modelled", bt.Name())
+					}
+				}
+			}
+		}
+		switch x := n.(type) {
+		case *ast.UnaryExpr:
+			if x.Op == token.AND && tableMode {
+				if _, isLit := stripParens(x.X).(*ast.CompositeLit); !isLit {
+					p := parent[x]
+					for {
+						if pe, ok := p.(*ast.ParenExpr); ok {
+							p = parent[pe]
+							continue
+						}
+						break
+					}
+					call, isCall := p.(*ast.CallExpr)
+					isArg := false
+					if isCall {
+						for _, a := range call.Args {
+							if stripParens(a) == ast.Expr(x) {
+								isArg = true
+							}
+						}
+					}
+					if !isArg {
+						g.die(x, "address-of outside a call argument (a local pointer alias) is not modelled")
+					}
+				}
+			}
+		case *ast.StarExpr:
+			if tableMode {
+				if tv, ok := g.info.Types[x]; ok && tv.IsType() {
+					return true // a pointer type, not a dereference
+				}
+				// the one unsafe idiom of Vector(): *(*string)(unsafe.Pointer(&b)) — the bytes of b as a string
+				if c, ok := stripParens(x.X).(*ast.CallExpr); ok && len(c.Args) == 1 {
+					if tv, ok := g.info.Types[c.Fun]; ok && tv.IsType() && tv.Type.String() == "*string" {
+						if c2, ok := stripParens(c.Args[0]).(*ast.CallExpr); ok && len(c2.Args) == 1 {
+							if tv2, ok := g.info.Types[c2.Fun]; ok && tv2.IsType() && tv2.Type.String() == "unsafe.Pointer" {
+								if u, ok := stripParens(c2.Args[0]).(*ast.UnaryExpr); ok && u.Op == token.AND {
+									if _, ok := stripParens(u.X).(*ast.Ident); ok {
+										return true
+									}
+								}
+							}
+						}
+					}
+				}
+				id, ok := stripParens(x.X).(*ast.Ident)
+				if !ok || !params[g.info.Uses[id]] {
+					g.die(x, "dereference of anything but a pointer parameter is not modelled")
+				}
+			}
+		case *ast.DeclStmt, *ast.AssignStmt:
+			if tableMode {
+				var ids []*ast.Ident
+				if d, ok := x.(*ast.DeclStmt); ok {
+					if gd, ok := d.Decl.(*ast.GenDecl); ok {
+						for _, sp := range gd.Specs {
+							if vs, ok := sp.(*ast.ValueSpec); ok {
+								ids = append(ids, vs.Names...)
+							}
+						}
+					}
+				} else if a := x.(*ast.AssignStmt); a.Tok == token.DEFINE {
+					for _, l := range a.Lhs {
+						if id, ok := l.(*ast.Ident); ok {
+							ids = append(ids, id)
+						}
+					}
+				}
+				for _, id := range ids {
+					if o := g.info.Defs[id]; o != nil {
+						if _, isPtr := o.Type().Underlying().(*types.Pointer); isPtr {
+							g.die(id, "local variable %s of pointer type is not modelled", id.Name)
+						}
+					}
+				}
+			}
+		case *ast.CallExpr:
+			if id, ok := x.Fun.(*ast.Ident); ok && id.Name == "make" {
+				if len(x.Args) >= 2 {
+					if n := g.constInt(x.Args[1]); n == nil || *n != 0 {
+						g.die(x, "make with a non-zero or non-constant length is not modelled")
+					}
+				}
+				if len(x.Args) == 3 {
+					nMake3++
+				}
+			}
+		case *ast.SwitchStmt:
+			// an unlabelled break directly inside a case body leaves the switch, not the enclosing loop
+			for _, cl := range x.Body.List {
+				for _, st := range cl.(*ast.CaseClause).Body {
+					ast.Inspect(st, func(m ast.Node) bool {
+						switch b := m.(type) {
+						case *ast.ForStmt, *ast.RangeStmt, *ast.SwitchStmt, *ast.SelectStmt, *ast.FuncLit:
+							return false
+						case *ast.BranchStmt:
+							if b.Tok == token.BREAK {
+								g.die(b, "break inside a switch is not modelled")
+							}
+						}
+						return true
+					})
+				}
+			}
+		}
+		return true
+	})
+	if nMake3 > 1 || nMake3 != nMake3Top {
+		g.die(fd, "%s: more than one pre-sized buffer, or one that is not a top-level statement", name)
+	}
+}
+
 func (g *gen) emit(name string) string {
 	fd := g.funcs[name]
 	if fd == nil {
 		fmt.Fprintf(os.Stderr, "unknown function %s\n", name)
 		os.Exit(2)
 	}
+	g.precheck(name, fd, true)
 	en := &env{name: name, recv: g.recv[name], params: map[string]string{}}
 	sig := g.info.Defs[fd.Name].Type().(*types.Signature)
 	if sig.TypeParams().Len() > 0 || sig.RecvTypeParams().Len() > 0 {
@@ -1310,22 +1533,22 @@ func posOf(fset *token.FileSet, p token.Pos) string {
 	return filepath.Base(fset.Position(p).Filename)
 }
 
-// onlyUnderVerifTag: the file's build constraint is exactly `verif`
+// File classification uses the go tool's own rules (go/build.Context.MatchFile: //go:build lines in the position Go accepts
+// them, and implicit constraints in file names such as _linux.go): a file belongs to the ORDINARY build (no tags; translated
+// and inspected), to the VERIF build only (the hooks: excluded, but listed in the fact `hook_decls`), or to neither
+// (listed in `pkg_build_tags` — it would join the package on another platform or with another tag).
+func matchFile(dir, name string, tags []string) bool {
+	ctx := build.Default
+	ctx.BuildTags = tags
+	ctx.CgoEnabled = true
+	ok, err := ctx.MatchFile(dir, name)
+	return err == nil && ok
+}
+
+// onlyUnderVerifTag: in the build with -tags verif but not in the ordinary build
 func onlyUnderVerifTag(path string) bool {
-	data, err := os.ReadFile(path)
-	if err != nil {
-		return false
-	}
-	for _, line := range strings.Split(string(data), "\n") {
-		t := strings.TrimSpace(line)
-		if strings.HasPrefix(t, "package ") {
-			return false
-		}
-		if strings.HasPrefix(t, "//go:build") {
-			return strings.TrimSpace(strings.TrimPrefix(t, "//go:build")) == "verif"
-		}
-	}
-	return false
+	dir, name := filepath.Dir(path), filepath.Base(path)
+	return !matchFile(dir, name, nil) && matchFile(dir, name, []string{"verif"})
 }
 
 func main() {
@@ -1335,8 +1558,53 @@ func main() {
 	pkgs, err := parser.ParseDir(fset, dir, func(fi os.FileInfo) bool {
 		// every non-test file of the package is translated / inspected, except the verification hooks — recognised by their
 		// build constraint (`//go:build verif`: not part of an ordinary build), never by their name
-		return !strings.HasSuffix(fi.Name(), "_test.go") && !onlyUnderVerifTag(filepath.Join(dir, fi.Name()))
+		return !strings.HasSuffix(fi.Name(), "_test.go") && matchFile(dir, fi.Name(), nil)
 	}, 0)
+	// what is NOT translated: the hooks (verif build only) and files of neither build — recorded as facts
+	if ents, err := os.ReadDir(dir); err == nil {
+		for _, e := range ents {
+			n := e.Name()
+			if e.IsDir() || !strings.HasSuffix(n, ".go") || strings.HasSuffix(n, "_test.go") || matchFile(dir, n, nil) {
+				if !e.IsDir() && !strings.HasSuffix(n, ".go") && (strings.HasSuffix(n, ".s") || strings.HasSuffix(n, ".c") || strings.HasSuffix(n, ".h") || strings.HasSuffix(n, ".syso")) {
+					otherFiles = append(otherFiles, n+":non-Go source")
+				}
+				continue
+			}
+			if !onlyUnderVerifTag(filepath.Join(dir, n)) {
+				otherFiles = append(otherFiles, n+":in neither the ordinary nor the verif build")
+				continue
+			}
+			// a hooks file: its declarations (it may only ADD exported accessors named Verif…)
+			hf, err := parser.ParseFile(token.NewFileSet(), filepath.Join(dir, n), nil, 0)
+			if err != nil {
+				hookDecls = append(hookDecls, n+":unparsable")
+				continue
+			}
+			for _, d := range hf.Decls {
+				switch x := d.(type) {
+				case *ast.FuncDecl:
+					kind := "func"
+					if x.Recv != nil {
+						kind = "method"
+					}
+					hookDecls = append(hookDecls, n+":"+kind+" "+x.Name.Name)
+				case *ast.GenDecl:
+					for _, sp := range x.Specs {
+						switch y := sp.(type) {
+						case *ast.ValueSpec:
+							for _, nm := range y.Names {
+								hookDecls = append(hookDecls, n+":"+x.Tok.String()+" "+nm.Name)
+							}
+						case *ast.TypeSpec:
+							hookDecls = append(hookDecls, n+":type "+y.Name.Name)
+						case *ast.ImportSpec:
+							hookDecls = append(hookDecls, n+":import "+y.Path.Value)
+						}
+					}
+				}
+			}
+		}
+	}
 	if err != nil {
 		panic(err)
 	}
@@ -1579,6 +1847,8 @@ func main() {
 // (package-level) state is written, has its address taken, or has a method called on it, and each use of
 // package unsafe. Property C14 (results depend on arguments only) rests on these lists being what the
 // Lean side expects.
+var otherFiles, hookDecls []string // filled in main: files outside the ordinary build
+
 func stateFacts(fset *token.FileSet, files []*ast.File, info *types.Info, pkg *types.Package) []string {
 	var writes, calls, unsafes, vars []string
 	isPkgVar := func(e ast.Expr) (string, bool) {
@@ -1608,6 +1878,87 @@ func stateFacts(fset *token.FileSet, files []*ast.File, info *types.Info, pkg *t
 	for _, n := range pkg.Scope().Names() {
 		if v, ok := pkg.Scope().Lookup(n).(*types.Var); ok {
 			vars = append(vars, n+":"+v.Type().String())
+		}
+	}
+	// package-level initialisers that run code (a call or a function literal), blank identifiers included; and which function
+	// mentions which package-level variable — a table that gains a new reader or writer anywhere in the package (an `Error()`
+	// method, an initialiser closure, a helper the translator never visits) shows up here whatever aliasing it goes through
+	var varInits, varUses []string
+	isPkgVarObj := func(o types.Object) bool {
+		v, ok := o.(*types.Var)
+		return ok && !v.IsField() && v.Parent() == pkg.Scope()
+	}
+	usesIn := func(who string, n ast.Node) {
+		seen := map[string]bool{}
+		ast.Inspect(n, func(m ast.Node) bool {
+			if id, ok := m.(*ast.Ident); ok {
+				if o := info.Uses[id]; o != nil && isPkgVarObj(o) && !isErrorType(o.Type()) && !seen[id.Name] {
+					seen[id.Name] = true
+					varUses = append(varUses, who+":"+id.Name)
+				}
+			}
+			return true
+		})
+	}
+	for _, f := range files {
+		for _, d := range f.Decls {
+			switch x := d.(type) {
+			case *ast.GenDecl:
+				if x.Tok != token.VAR {
+					continue
+				}
+				for _, sp := range x.Specs {
+					vs := sp.(*ast.ValueSpec)
+					for i, n := range vs.Names {
+						var val ast.Expr
+						if i < len(vs.Values) {
+							val = vs.Values[i]
+						} else if len(vs.Values) == 1 {
+							val = vs.Values[0]
+						}
+						if val == nil {
+							continue
+						}
+						kinds := map[string]bool{}
+						ast.Inspect(val, func(m ast.Node) bool {
+							switch y := m.(type) {
+							case *ast.FuncLit:
+								kinds["funclit"] = true
+							case *ast.CallExpr:
+								if tv, ok := info.Types[y.Fun]; ok && tv.IsType() {
+									return true // conversion
+								}
+								kinds["call "+types.ExprString(y.Fun)] = true
+							}
+							return true
+						})
+						if len(kinds) > 0 {
+							var ks []string
+							for k := range kinds {
+								ks = append(ks, k)
+							}
+							sort.Strings(ks)
+							varInits = append(varInits, n.Name+":"+strings.Join(ks, ","))
+						}
+						usesIn("var "+n.Name, val)
+					}
+				}
+			case *ast.FuncDecl:
+				if x.Body == nil {
+					continue
+				}
+				who := x.Name.Name
+				if x.Recv != nil {
+					rt := x.Recv.List[0].Type
+					if st, ok := rt.(*ast.StarExpr); ok {
+						rt = st.X
+					}
+					if id, ok := rt.(*ast.Ident); ok {
+						who = id.Name + "." + who
+					}
+				}
+				usesIn(who, x.Body)
+			}
 		}
 	}
 	// sync.Pool variables: what `New` makes (the parser model takes "any buffer of that many slots" as the result of Get)
@@ -1940,11 +2291,15 @@ func stateFacts(fset *token.FileSet, files []*ast.File, info *types.Info, pkg *t
 		"/-- fields of the object type (name:type), in declaration order -/\ndef obj_fields : List String :=\n  " + lstRaw(ofields) + "\n",
 		"/-- methods of the object type with a pointer receiver (the only ones that can change the object) -/\ndef obj_ptr_methods : List String :=\n  " + lst(ptrm) + "\n",
 		"/-- what each pointer-receiver method does with its receiver: writes / takes-address / passes-pointer / aliases / returns-pointer / calls:M, or reads-only -/\ndef obj_ptr_effects : List String :=\n  " + lst(ptrEffects) + "\n",
+		"/-- declarations of the verification hooks files (verif build only; not translated): they may only add accessors -/\ndef hook_decls : List String :=\n  " + lst(hookDecls) + "\n",
+		"/-- files of the package directory that belong to neither the ordinary nor the verif build, and non-Go sources -/\ndef pkg_other_files : List String :=\n  " + lst(otherFiles) + "\n",
 		"/-- `init` functions of the package (file:init) -/\ndef pkg_inits : List String :=\n  " + lst(inits) + "\n",
 		"/-- build constraints on non-test source files other than the verification hooks (file:constraint) -/\ndef pkg_build_tags : List String :=\n  " + lst(tags) + "\n",
 		"/-- package-level variables (name:type) -/\ndef pkg_vars : List String :=\n  " + lst(vars) + "\n",
 		"/-- function:variable for every assignment to (or address-of) a package-level variable inside a function body -/\ndef pkg_writes : List String :=\n  " + lst(writes) + "\n",
 		"/-- function:variable.method for every method call on a package-level variable; function:go for goroutine starts -/\ndef pkg_calls : List String :=\n  " + lst(calls) + "\n",
+		"/-- package-level variables (blank ones included) whose initialiser runs code: name:calls and function literals in it -/\ndef pkg_var_inits : List String :=\n  " + lst(varInits) + "\n",
+		"/-- function:variable for every mention of a package-level variable (other than the `error` sentinels) in a function body or initialiser -/\ndef pkg_var_uses : List String :=\n  " + lst(varUses) + "\n",
 		"/-- sync.Pool variables and what their `New` makes -/\ndef pool_new : List String :=\n  " + lst(poolNew) + "\n",
 		"/-- every Get (with the canonical name of the variable that receives it) and Put (with what is handed back), in source order -/\ndef pool_uses : List String :=\n  " + lstRaw(poolUses) + "\n",
 		"/-- function:unsafe.X for every use of package unsafe -/\ndef pkg_unsafe : List String :=\n  " + lst(unsafes) + "\n",
@@ -3148,6 +3503,7 @@ func (g *gen) emitP(name string) {
 	g.cur = f
 	defer func() { g.cur = saved }()
 	fd := f.fd
+	g.precheck(name, fd, false)
 	en := &env{name: name, recv: "", params: map[string]string{}}
 	var ps []string
 	if f.poolVar != "" {
